@@ -259,14 +259,33 @@ def shape_features(tr, keys=None, prop="C08") -> list:
         return []
     fresh = fresh_bulk(tr, ks)
     out = []
+    names = None
+    for ann in tr.annotators:
+        if hasattr(ann, "regionprops_names"):
+            names = ann.regionprops_names
+    spacing = None if tr.scale is None else tuple(tr.scale[1:])
     for n, d in tr.graph.nodes(data=True):
-        if not (seg[d[_tkey(tr)]] == n).any():
+        frame = seg[d[_tkey(tr)]]
+        if not (frame == n).any():
             continue
         for k in ks:
             got = d.get(k)
             ref = fresh.graph.nodes[n].get(k)
             if not _same_exact(got, ref):
                 out.append((f"{prop}.shape", f"node {n}: stored {k}={got}, from-scratch computation gives {ref}"))
+        if names is not None and not out:
+            # second reference: the same measurement on the node's mask alone, so that no
+            # other label of the frame can leak into it ("from the node's current mask")
+            from funtracks.annotators._regionprops_extended import regionprops_extended
+
+            regions = regionprops_extended(np.where(frame == n, n, 0), spacing=spacing)
+            if len(regions) == 1:
+                for k in ks:
+                    ref2 = getattr(regions[0], names[k])
+                    if isinstance(ref2, tuple):
+                        ref2 = list(ref2)
+                    if not _same_exact(d.get(k), ref2):
+                        out.append((f"{prop}.shape", f"node {n}: stored {k}={d.get(k)}, the node's mask alone gives {ref2}"))
         if len(out) > 3:
             break
     return out
